@@ -13,8 +13,8 @@ enum Mut {
 	M_DUP_ANNOUNCE = 0, M_WITHDRAW_UNKNOWN, M_BAD_FLAGS, M_SESSION_CR, M_SESSION_EOD, M_WRONG_VERSION, M_UNKNOWN_TYPE,
 	M_LEN_SMALL, M_LEN_BIG, M_LEN_INCONSISTENT, M_UNEXPECTED_TYPE, M_EOD_OTHER_FORMAT, M_TRUNCATE, M_RECV_FAULT, M_ANN_THEN_WD, M_PREFIX_BADVER, M_N
 };
-enum Idle { I_TIMEOUT = 0, I_INTR = 1, I_CLOSE = 2, I_ERROR = 3, I_NOTIFY = 4, I_STOP_RESTART = 5, I_LATE_INTR = 6, I_STOP_MIDSYNC = 7, I_STRAY = 8, I_N = 9 }; // STRAY: a PDU other than a Serial Notify arrives while the client waits in ESTABLISHED; // LATE_INTR: EINTR one second after the deadline; STOP_MIDSYNC (in slot 1 or 2): rtr_stop() while the answer of this step is being received / applied (as an idle action: a plain timeout)
-enum SendMode { S_OK = 0, S_PARTIAL = 1, S_ERROR = 2, S_WOULDBLOCK = 3, S_INTR = 4, S_PARTIAL_THEN_ERROR = 5, S_SLOW_PARTIAL = 6, S_PARTIAL_THEN_INTR = 7, S_N = 8 }; // SLOW_PARTIAL: blocks for the send timeout, then takes 1..3 bytes; PARTIAL_THEN_INTR: takes 3 bytes, the next write is interrupted (nothing is lost)
+enum Idle { I_TIMEOUT = 0, I_INTR = 1, I_CLOSE = 2, I_ERROR = 3, I_NOTIFY = 4, I_STOP_RESTART = 5, I_LATE_INTR = 6, I_STOP_MIDSYNC = 7, I_STRAY = 8, I_PARTIAL_NOTIFY = 9, I_N = 10 }; // PARTIAL_NOTIFY: only the first 1..7 bytes of a Serial Notify arrive while the client waits in ESTABLISHED; // STRAY: a PDU other than a Serial Notify arrives while the client waits in ESTABLISHED; // LATE_INTR: EINTR one second after the deadline; STOP_MIDSYNC (in slot 1 or 2): rtr_stop() while the answer of this step is being received / applied (as an idle action: a plain timeout)
+enum SendMode { S_OK = 0, S_PARTIAL = 1, S_ERROR = 2, S_WOULDBLOCK = 3, S_INTR = 4, S_PARTIAL_THEN_ERROR = 5, S_SLOW_PARTIAL = 6, S_PARTIAL_THEN_INTR = 7, S_ERROR_STICKY = 8, S_N = 9 }; // ERROR_STICKY: every write fails until the connection is closed; // SLOW_PARTIAL: blocks for the send timeout, then takes 1..3 bytes; PARTIAL_THEN_INTR: takes 3 bytes, the next write is interrupted (nothing is lost)
 
 // interval value table used for EOD fields and for the configuration (index -> seconds)
 static const uint32_t IV_TABLE[] = {
@@ -128,7 +128,7 @@ inline Script from_bytes(const uint8_t *data, size_t size)
 		t.open_fails = b & 3;
 		t.open_delay = (b >> 2) % DELAY_N;
 		uint8_t c = r.u8();
-		t.send_mode = (c & 0x0f) < 9 ? 0 : (c & 0x0f) - 8; // mostly OK
+		t.send_mode = (c & 0x0f) < 8 ? 0 : (c & 0x0f) - 7; // mostly OK
 		t.advance = ((c >> 4) & 3) + ((a >> 6) == 3 ? 3 : 0);
 		t.new_session = (c >> 6) == 3;
 		t.toggle = r.u64();
@@ -179,7 +179,7 @@ inline wire::Bytes to_bytes(const Script &s)
 		u8((adv >= 3 ? 0xC0 : 0) | (t.kind % K_N)); // K_N == 8 divides 0xC0, so kind = a % K_N survives
 		u8((t.open_fails & 3) | ((t.open_delay % DELAY_N) << 2));
 		int sm = t.send_mode % S_N;
-		u8((sm == 0 ? 0 : (sm + 8)) | ((adv % 3) << 4) | (t.new_session ? 0xC0 : 0));
+		u8((sm == 0 ? 0 : (sm + 7)) | ((adv % 3) << 4) | (t.new_session ? 0xC0 : 0));
 		u64(t.toggle);
 		u8(t.mut % M_N); u8(t.pos);
 		u8((t.keep & 1) | ((t.err_flags & 3) << 1) | ((t.notify_prefix & 1) << 3) | ((t.chunk & 3) << 4) | ((t.err_flags & 4) ? 0x80 : 0));
